@@ -1099,13 +1099,64 @@ func emitReturnStmt(cb *CodeBuilder, pos token.Pos, rets ...ast.Expr) {
 	cb.emitStmt(&ast.ReturnStmt{Return: pos, Results: rets})
 }
 
+// ctrlExpr parenthesizes the composite literals of x that the Go parser would
+// take for the block of an if/for/switch statement when x is part of its header.
+func ctrlExpr(x ast.Expr) ast.Expr {
+	switch v := x.(type) {
+	case *ast.CompositeLit:
+		switch v.Type.(type) {
+		case nil, *ast.ArrayType, *ast.StructType, *ast.MapType:
+			return x
+		}
+		return &ast.ParenExpr{X: x}
+	case *ast.BinaryExpr:
+		v.X, v.Y = ctrlExpr(v.X), ctrlExpr(v.Y)
+	case *ast.UnaryExpr:
+		v.X = ctrlExpr(v.X)
+	case *ast.StarExpr:
+		v.X = ctrlExpr(v.X)
+	case *ast.SelectorExpr:
+		v.X = ctrlExpr(v.X)
+	case *ast.CallExpr:
+		v.Fun = ctrlExpr(v.Fun)
+	case *ast.IndexExpr:
+		v.X = ctrlExpr(v.X)
+	case *ast.SliceExpr:
+		v.X = ctrlExpr(v.X)
+	case *ast.TypeAssertExpr:
+		v.X = ctrlExpr(v.X)
+	}
+	return x
+}
+
+// ctrlStmt applies ctrlExpr to the expressions of a simple statement used as
+// init or post statement of an if/for/switch statement.
+func ctrlStmt(s ast.Stmt) ast.Stmt {
+	switch v := s.(type) {
+	case *ast.ExprStmt:
+		v.X = ctrlExpr(v.X)
+	case *ast.AssignStmt:
+		for i, x := range v.Lhs {
+			v.Lhs[i] = ctrlExpr(x)
+		}
+		for i, x := range v.Rhs {
+			v.Rhs[i] = ctrlExpr(x)
+		}
+	case *ast.IncDecStmt:
+		v.X = ctrlExpr(v.X)
+	case *ast.SendStmt:
+		v.Chan, v.Value = ctrlExpr(v.Chan), ctrlExpr(v.Value)
+	}
+	return s
+}
+
 func emitIfStmt(cb *CodeBuilder, p *ifStmt, el ast.Stmt) {
-	cb.emitStmt(&ast.IfStmt{Init: p.init, Cond: p.cond, Body: p.body, Else: el})
+	cb.emitStmt(&ast.IfStmt{Init: ctrlStmt(p.init), Cond: ctrlExpr(p.cond), Body: p.body, Else: el})
 }
 
 func emitSWitchStmt(cb *CodeBuilder, p *switchStmt, stmts []ast.Stmt) {
 	body := &ast.BlockStmt{List: stmts}
-	cb.emitStmt(&ast.SwitchStmt{Init: p.init, Tag: checkParenExpr(p.tag.Val), Body: body})
+	cb.emitStmt(&ast.SwitchStmt{Init: ctrlStmt(p.init), Tag: ctrlExpr(p.tag.Val), Body: body})
 }
 
 func emitFullthrough(cb *CodeBuilder) {
@@ -1127,7 +1178,7 @@ func emitCommClause(cb *CodeBuilder, p *commCase, body []ast.Stmt) {
 func emitTypeSwitchStmt(cb *CodeBuilder, p *typeSwitchStmt, stmts []ast.Stmt) {
 	body := &ast.BlockStmt{List: stmts}
 	var assign ast.Stmt
-	x := &ast.TypeAssertExpr{X: p.x}
+	x := &ast.TypeAssertExpr{X: ctrlExpr(p.x)}
 	if p.name != "" {
 		assign = &ast.AssignStmt{
 			Tok: token.DEFINE,
@@ -1137,7 +1188,7 @@ func emitTypeSwitchStmt(cb *CodeBuilder, p *typeSwitchStmt, stmts []ast.Stmt) {
 	} else {
 		assign = &ast.ExprStmt{X: x}
 	}
-	cb.emitStmt(&ast.TypeSwitchStmt{Init: p.init, Assign: assign, Body: body})
+	cb.emitStmt(&ast.TypeSwitchStmt{Init: ctrlStmt(p.init), Assign: assign, Body: body})
 }
 
 func emitTypeCaseClause(cb *CodeBuilder, p *typeCaseStmt, body []ast.Stmt) {
@@ -1151,12 +1202,13 @@ func emitForRangeStmt(cb *CodeBuilder, p *forRangeStmt, stmts []ast.Stmt, flows 
 				Fun: &ast.SelectorExpr{X: p.stmt.X, Sel: ident(p.enumName)},
 			}
 		}
+		p.stmt.X = ctrlExpr(p.stmt.X)
 		p.stmt.Body = p.handleFor(&ast.BlockStmt{List: stmts}, 1)
 		cb.emitStmt(p.stmt)
 	} else {
 		cb.stk.Push(p.x)
 		cb.MemberVal(p.enumName, 0).Call(0)
-		callEnum := cb.stk.Pop().Val
+		callEnum := ctrlExpr(cb.stk.Pop().Val)
 		/*
 			for _xgo_it := X.XGo_Enum();; {
 				var _xgo_ok bool
